@@ -37,7 +37,7 @@ func init() {
 		},
 		Batches:  func(tier string) int { return 16 },
 		Run:      runC19,
-		Required: []string{"isqrt_checked", "isqrt_max_input", "time_at_slot_boundary", "merkle_accept", "merkle_reject", "slotspan_overflow", "epochstart_overflow"},
+		Required: []string{"isqrt_checked", "isqrt_max_input", "time_at_slot_boundary", "merkle_accept", "merkle_reject", "merkle_overlapping_verifications", "slotspan_overflow", "epochstart_overflow"},
 	})
 }
 
@@ -407,6 +407,13 @@ func runC19(b *fw.B) {
 		nm = 6000
 	}
 	rep := hashing.GetHashFn()
+	type keptProof struct {
+		leaf         tree.Root
+		branch       []tree.Root
+		depth, index uint64
+		root         tree.Root
+	}
+	var keptProofs []keptProof
 	for i := 0; i < nm; i++ {
 		depth := uint64(b.Rng.IntN(41))
 		if i%37 == 0 {
@@ -477,6 +484,9 @@ func runC19(b *fw.B) {
 			b.Nontrivial("merkle", kind, depth, index, leaf[:4])
 		}
 		check("honest", leaf, branch, depth, index, root)
+		if depth >= 3 && depth <= 40 && len(keptProofs) < 48 {
+			keptProofs = append(keptProofs, keptProof{leaf, append([]tree.Root{}, branch...), depth, index, root})
+		}
 		// single perturbations
 		l2 := leaf
 		l2[b.Rng.IntN(32)] ^= 1 << uint(b.Rng.IntN(8))
@@ -504,6 +514,27 @@ func runC19(b *fw.B) {
 		if depth < 64 {
 			// index bits above depth are irrelevant by the spec formula (index // 2**i % 2 for i < depth)
 			check("index-high-bits", leaf, branch, depth, index|(uint64(1)<<63), root)
+		}
+	}
+	// the retained honest proofs (and each with one bit of the root flipped) verified again on 8 goroutines at the same time
+	if len(keptProofs) > 0 {
+		b.Case("merkle-overlapped", fmt.Sprintf("%d retained proofs on 8 goroutines", len(keptProofs)))
+		const iters = 400
+		msgs := overlapped(8, iters, func(w, i int) string {
+			k := keptProofs[(w*7+i)%len(keptProofs)]
+			if !merkle.VerifyMerkleBranch(k.leaf, k.branch, k.depth, k.index, k.root) {
+				return fmt.Sprintf("VerifyMerkleBranch(honest, depth=%d, index=%d)=false while other branches are verified at the same time (true when called alone)", k.depth, k.index)
+			}
+			r2 := k.root
+			r2[(w+i)%32] ^= 1 << uint(i%8)
+			if merkle.VerifyMerkleBranch(k.leaf, k.branch, k.depth, k.index, r2) {
+				return fmt.Sprintf("VerifyMerkleBranch(root-flipped, depth=%d, index=%d)=true while other branches are verified at the same time", k.depth, k.index)
+			}
+			return ""
+		})
+		b.Count("merkle_overlapping_verifications", 8*iters*2)
+		for _, m := range msgs {
+			b.Violate("merkle/overlapping-calls", m, nil)
 		}
 	}
 	// small depths: every index
